@@ -408,12 +408,14 @@ func dedup(xs []string) []string {
 }
 
 func schedGen(r *gen.R, idx int) []run.Case {
+	var extra []run.Case
 	if os.Getenv("VERIF_TIER") == "thorough" {
-		return schedThorough(r, idx)
+		// once per process: exhaustive DFS of the tiny scripts + free-running stress; then sampled scenarios as usual
+		extra = schedThorough(r, idx)
 	}
 	sc := genScenario(r)
 	ch := &sched.Rand{Next: r.N, Stay: 40 + r.N(50), Flt: 25}
-	return []run.Case{schedCase(sc, ch)}
+	return append(extra, schedCase(sc, ch))
 }
 
 func schedReplay(req string) string {
@@ -496,7 +498,7 @@ func schedThorough(r *gen.R, idx int) []run.Case {
 	var mine []run.Case
 	thoroughOnce.Do(func() {
 		for _, sc := range tinyScenarios() {
-			budget := 4000
+			budget := 1500
 			if b := os.Getenv("VERIF_DFS_BUDGET"); b != "" {
 				fmt.Sscanf(b, "%d", &budget)
 			}
